@@ -57,6 +57,7 @@ type Family struct {
 	certs   map[string]*x509.Certificate
 	kits    map[string]*Kit
 	aux     map[int]*auxCerts
+	sibGood map[int][]byte
 }
 
 // NewFamily creates a family. leafKind / caKind select pool key kinds.
@@ -203,8 +204,8 @@ func (f *Family) Chain(shapes []Shape) []*x509.Certificate {
 // auxCerts are the look-alike signers used by forged OCSP replies for the
 // certificate at one position (all relative to its issuer at pos+1).
 type auxCerts struct {
-	delegate, sibling, siblingNoEKU, siblingAnyEKU, brokenDelegate, unrelatedSelf, sameNameCA, sameNameDelegate *x509.Certificate
-	delegateKey, siblingKey, unrelatedKey, sameNameCAKey, sameNameDelegateKey                                   *pki.Key
+	delegate, sibling, siblingNoEKU, siblingAnyEKU, brokenDelegate, unrelatedSelf, sameNameCA, sameNameCAOCSP, sameNameDelegate *x509.Certificate
+	delegateKey, siblingKey, unrelatedKey, sameNameCAKey, sameNameDelegateKey                                                   *pki.Key
 }
 
 func (f *Family) auxFor(pos int) *auxCerts {
@@ -250,6 +251,12 @@ func (f *Family) auxFor(pos int) *auxCerts {
 	// another CA with the issuer's name, and a delegate it issued
 	a.sameNameCAKey = pki.K("p256", 11)
 	a.sameNameCA = mk(pki.CASpec(a.sameNameCAKey, issuer.Subject.CommonName), nil, nil)
+	// the same look-alike CA dressed up as well as a forger can: OCSP-signing
+	// usage and the REAL issuer's key identifier copied into it
+	lk := pki.CASpec(a.sameNameCAKey, issuer.Subject.CommonName)
+	lk.EKU = []x509.ExtKeyUsage{x509.ExtKeyUsageOCSPSigning}
+	lk.SKI = pki.KeyID(ik)
+	a.sameNameCAOCSP = mk(lk, nil, nil)
 	a.sameNameDelegateKey = pki.K("p384", 5)
 	sd := pki.LeafSpec(a.sameNameDelegateKey, f.Tag+"-ocsp-delegate")
 	sd.EKU = []x509.ExtKeyUsage{x509.ExtKeyUsageOCSPSigning}
@@ -258,4 +265,29 @@ func (f *Family) auxFor(pos int) *auxCerts {
 	f.aux[pos] = a
 	f.mu.Unlock()
 	return a
+}
+
+// siblingGood returns the bytes of an authentic Good reply for another
+// certificate of the same issuer as position pos, after having had the library
+// accept exactly these bytes for that sibling once (so that any memo of
+// "verified responses" is warm).
+func (f *Family) siblingGood(pos int) []byte {
+	f.mu.Lock()
+	if b, ok := f.sibGood[pos]; ok {
+		f.mu.Unlock()
+		return b
+	}
+	f.mu.Unlock()
+	sh := HTTPShape(1, 0)
+	sh.Freshest = true // a shape no scenario certificate shares: a true sibling
+	kit := f.KitFor(pos, sh, Shape{})
+	body := kit.Reply("good", false).Body
+	warmOCSP(f, pos, sh, kit, body)
+	f.mu.Lock()
+	if f.sibGood == nil {
+		f.sibGood = map[int][]byte{}
+	}
+	f.sibGood[pos] = body
+	f.mu.Unlock()
+	return body
 }
